@@ -163,3 +163,14 @@ for _pid, _s in R17.items():
     if _pid in CLAIMED:
         t, text, note, ref = CLAIMED[_pid]
         CLAIMED[_pid] = (t, text + " Round R17: " + _s + ".", note, ref)
+
+# classes added in the fourteenth round of seeded changes (R18; DESIGN.md §8)
+R18 = {
+    "C04": "reflection of an endpoint's own datagrams in a secure and an unsecure session; set_max_clients sequences while sessions run (everything surfaced earlier stays refused)",
+    "C18": "payload-only session: both sides send a payload every 100 ms for four time-outs, no keep-alive is ever emitted",
+    "C19": "states in which the token's client id is connected from another address (silent since its handshake / heard)",
+}
+for _pid, _s in R18.items():
+    if _pid in CLAIMED:
+        t, text, note, ref = CLAIMED[_pid]
+        CLAIMED[_pid] = (t, text + " Round R18: " + _s + ".", note, ref)
